@@ -196,6 +196,10 @@ def bounds_family(ctx, li):
     for j in range(3):
         decls.append((G.BASE_NAMES[6 + j], [], None))
         extra.append(5 + depth + j)
+    # a second, unrelated lineage: a lower bound from one lineage must refuse an upper bound from the other (and vice versa)
+    decls.append((G.BASE_NAMES[9], [], None))
+    decls.append((G.BASE_NAMES[10], [], len(decls) - 1))
+    other = [len(decls) - 2, len(decls) - 1]
     spec = G.LangSpec(decls)
     ops = spec.build()
     x, y = ('v', 0), ('v', 1)
@@ -206,7 +210,7 @@ def bounds_family(ctx, li):
     opdecls = [("h", {"nvars": 1, "nwild": 0, "body": X.fun(*hparams, rng.choice([E, x])), "constraints": []})]
     for K, nm in ((K1, "1"), (K2, "2")):
         opdecls.append(("w" + nm, {"nvars": 1, "nwild": 0, "body": X.fun(x, x, K), "constraints": []}))
-        for t in chain:
+        for t in chain + other:
             opdecls.append((f"g{nm}{spec.name(t)}", {"nvars": 0, "nwild": 0, "body": X.fun((t, ()), K), "constraints": []}))
     lang, operators = X.build_typed_language(spec, ops, opdecls)
     ctx.setup(spec.sexp(), "ok T")
@@ -214,15 +218,16 @@ def bounds_family(ctx, li):
     ctx.setup(X.operators_line(opdecls), "ok")
     for _ in range(40 if ctx.tier == "quick" else 150):
         parts = ["h"]
+        pool = chain if rng.random() < 0.6 else chain + other + other
         for p in hparams:
             if I.is_var(p):
-                parts.append(f"(- : {spec.name(rng.choice(chain))})")
+                parts.append(f"(- : {spec.name(rng.choice(pool))})")
             else:
                 nm = "1" if p[1][1] == K1 else "2"
                 if rng.random() < 0.5:
-                    parts.append(f"g{nm}{spec.name(rng.choice(chain))}")
+                    parts.append(f"g{nm}{spec.name(rng.choice(pool))}")
                 else:
-                    parts.append(f"(w{nm} (- : {spec.name(rng.choice(chain))}))")
+                    parts.append(f"(w{nm} (- : {spec.name(rng.choice(pool))}))")
         text = " ".join(parts)
         one_case(ctx, li, spec, ops, lang, operators, None, text, 0, opdecls)
         ctx.count("bounds_family")
